@@ -191,8 +191,9 @@ def _odd_ids(case):
                                 'an ACK with the id %r (%s) invoked the '
                                 'callback issued under id %r: %r'
                                 % (odd, type(odd).__name__, real, fired))
-            bad = [e for m_, e in w.h.swallowed
-                   if not isinstance(e, ValueError)]
+            # ("ignored without error": not rejected with an exception that
+            # engine.io has to contain either)
+            bad = [e for m_, e in w.h.swallowed]
             if bad:
                 raise Violation('ack-raised', 'an ACK with the id %r (%s) '
                                 'is not ignored: %r' % (odd, type(
